@@ -17,6 +17,7 @@ StrTag(p) ==
 StrCase(p) ==
   LET body == StrTag(p) \o Pad8(Neighbour)  T == 8 + Len(body) + 8 IN
   [mem |-> U32Bytes(T) \o <<0, 0, 0, 0>> \o body \o EndTagBytes, al |-> 0,
-   calls |-> <<[op |-> "load"], [op |-> "str", kind |-> p.kind], [op |-> "get", kind |-> p.kind]>>,
+   calls |-> <<[op |-> "load"], [op |-> "str", kind |-> p.kind], [op |-> "get", kind |-> p.kind]>>
+             \o (IF p.kind \in {"cmdline", "bootloader"} THEN <<[op |-> "dbg", what |-> p.kind]>> ELSE <<>>),
    desc |-> [area |-> "str", s |-> StrOf(p.len, p.code)] @@ p]
 =============================================================================
